@@ -26,13 +26,13 @@
    * arrival_map_refines: the concrete circular buffer implements the abstract
      map for every AddPacket/RemoveOldPackets sequence.
 
-   NOT proved (decided by the correspondence + specification oracle only, see
-   design-notes/C05.md): the assembly of the above into ONE statement over
-   histories with a ghost "already reported" set (the pieces are proved per
-   Record, per packet and per build, their composition is argued in prose
-   only), that the model's map is the retained set of the oracle's reading
-   (truth_record), and that the buffer capacity is always a power of two (the
-   model writes Go's "sn & (cap-1)" as "sn mod cap"). *)
+   Deepening round (Properties/C05b.v): the assembly of the above into ONE
+   statement over histories with the oracle's ground truth as ghost state
+   (C05_build), the identity of that ground truth (truth_record) with the
+   model's map on every history (C05_truth_is_model_map), soundness of the
+   oracle and of the correspondence check for the Prop-level property, and the
+   power-of-two capacity of the buffer (so Go's "sn & (cap-1)" is the model's
+   "sn mod cap") are proved there. *)
 From IV Require Import Base.Word Model.TwccChunk Model.ArrivalMap Model.TwccRecorder Proofs.TwccChunkProofs
   Proofs.TwccFeedbackProofs Proofs.ArrivalMapProofs Proofs.ArrivalMapRefine Proofs.TwccRecorderProofs.
 
